@@ -25,11 +25,11 @@ def run_mutants(prop, only=None):
         os.rmdir(w)
         try:
             # copy of the *current working tree* (tracked files at HEAD + local modifications)
-            subprocess.check_call(["git", "-C", REPO, "worktree", "add", "-q", "--detach", w, "HEAD"],
+            # `git stash create` names the working tree (HEAD + tracked modifications) as one commit object without touching the
+            # repository, so HEAD moving between two commands cannot produce a mixed copy
+            snap = subprocess.run(["git", "-C", REPO, "stash", "create"], capture_output=True, text=True).stdout.strip() or "HEAD"
+            subprocess.check_call(["git", "-C", REPO, "worktree", "add", "-q", "--detach", w, snap],
                                   stdout=subprocess.DEVNULL, stderr=subprocess.DEVNULL)
-            wd = subprocess.run(["git", "-C", REPO, "diff", "HEAD"], capture_output=True, text=True).stdout
-            if wd.strip():
-                subprocess.run(["git", "-C", w, "apply"], input=wd, text=True)
             ap = subprocess.run(["git", "-C", w, "apply", os.path.join(d, f)], capture_output=True, text=True)
             if ap.returncode != 0:
                 out["skipped"].append({"mutant": name, "reason": "patch no longer applies to the current tree"})
